@@ -10,8 +10,9 @@ Menu(t) ==
   ELSE {CNotNull, CNull} \cup
        CASE t.k = "number" -> {CLo(n, i) : n \in ThinNums, i \in BOOLEAN} \cup {CHi(n, i) : n \in ThinNums, i \in BOOLEAN}
                               \cup {CLo(NInf, TRUE), CHi(PInf, TRUE), CLo(PInf, TRUE), CHi(Qn(8), FALSE), CLenLo(1)}
-         [] t.k = "string" -> {CPrefix(p) : p \in PrefixMenu} \cup {CLo(Qn(0), TRUE)}
-         [] IsCollT(t) -> {CLenLo(k) : k \in 0..3} \cup {CLenHi(k) : k \in 0..3} \cup {CPrefix(<<"a">>)}
+                              \cup {CRange(Qn(0), Qn(4)), CRange(Qn(4), Qn(4)), CRange(Qn(4), Qn(0)), CRange(NInf, Qn(0))}
+         [] t.k = "string" -> {CPrefix(p) : p \in PrefixMenu} \cup {CPrefixSafe(p) : p \in PrefixMenu} \cup {CLo(Qn(0), TRUE)}
+         [] IsCollT(t) -> {CLenLo(k) : k \in 0..3} \cup {CLenHi(k) : k \in 0..3} \cup {CLen(k) : k \in 0..3} \cup {CPrefix(<<"a">>)}
          [] OTHER -> {CLenLo(1)}
 RECURSIVE Beh(_, _, _)
 Beh(o, rr, n) ==
